@@ -16,7 +16,7 @@ CONSTANTS
   MaxNet = 4
   MaxCrashes = 0
   MaxProposals = 1
-  MaxDepth = 60
+  MaxDepth = 44
   AllowDrop = TRUE
   AllowDup = FALSE
   AllowAsync = FALSE
